@@ -1685,6 +1685,7 @@ def _c07_registry(add, tier, TO):
     def q(name, qtier, chan, N, MS, nstreams, k, cancel, producers, registered, slack=2):
         add("C07", name, qtier, lambda ctx: cancel_query(ctx, name, chan, N, MS, nstreams, k, cancel, producers, registered, TO, slack))
     q("c07_atomic_cancel_all_vs_first_poll", "quick", "uni_move_atomic", 2, 1, 1, 0, ("all",), [], False)
+    q("c07_atomic_cancel_all_vs_parked_k0", "quick", "uni_move_atomic", 2, 1, 1, 0, ("all",), [], True)      # parked, waker registered, nothing buffered
     q("c07_atomic_cancel_all_vs_parked_k1", "quick", "uni_move_atomic", 2, 1, 1, 1, ("all",), [], True)
     q("c07_full_sync_cancel_all_vs_first_poll", "quick", "uni_move_full_sync", 2, 1, 1, 0, ("all",), [], False)
     q("c07_atomic_cancel_one_of_two", "quick", "uni_move_atomic", 2, 2, 2, 0, ("one", 1), [], False)
